@@ -362,6 +362,15 @@ def run_bilinear(ctx, rng, n, monitor):
             if db.startswith("float"):
                 for t in b["terms"]:
                     t[1] = [[2 * v + 1, 2] if isinstance(v, int) else v for v in t[1]]
+        # the model's own index arithmetic (Np/Model/BilinearFns.lean) against the pairs derived with numpy
+        treq = {"inner": {"fn": "inner", "n": a["shape"][0] if a["shape"] else 1},
+                "outer": {"fn": "outer", "sa": list(a["shape"]), "sb": list(b["shape"])},
+                "matmul": {"fn": "matmul", "sa": list(a["shape"]), "sb": list(b["shape"])}}[fn]
+        mt = run_driver([dict(treq, id=0, op="bilineartable")])[0]
+        ctx.count("model-table")
+        norm = lambda ps: sorted((tuple(p[0]), tuple(p[1])) for p in ps)
+        if mt.get("kind") != "pairs" or list(mt["shape"]) != list(oshape) or norm(mt["pairs"]) != norm(pairs):
+            raise RuntimeError(f"Np.BilinearFns and numpy disagree for {fn} {a['shape']} x {b['shape']}: model {str(mt)[:200]} vs shape {oshape} pairs {str(pairs)[:200]}")
         cases.append((fn, a, b, impl, oshape))
         drv.append({"id": len(drv), "op": "bilinear", "opts": {"retain_coefficients": False, "retain_names": True},
                     "a": strip(a), "b": strip(b), "shape": oshape, "pairs": pairs})
